@@ -85,17 +85,31 @@ let run_case line =
   let raw = List.filter (fun s -> String.trim s <> "") (String.split_on_char ';' body) in
   let items = List.filter_map parse_item raw in
   let has_g = List.exists (fun s -> match words s with "G" :: _ -> true | _ -> false) raw in
-  let is_lab w = String.length w > 0 && w.[0] = 'L' in
+  let is_lab w = String.length w > 0 && (w.[0] = 'L' || w.[0] = 'K') in
   let addrs = List.filter_map (fun w ->
       match String.split_on_char ':' w with
       | [i; a] when not (is_lab i) -> Some (int_of_string i, z_of_hex a)
       | _ -> None) (words oracle) in
   let labs = List.filter_map (fun w ->
       match String.split_on_char ':' w with
-      | [i; a] when is_lab i -> Some (int_of_string (String.sub i 1 (String.length i - 1)), z_of_hex a)
+      | [i; a] when is_lab i && i.[0] = 'L' -> Some (int_of_string (String.sub i 1 (String.length i - 1)), z_of_hex a)
       | _ -> None) (words oracle) in
+  (* K<idx>:a1:a2 = the label addresses of lref item idx (labels of one place may carry different addresses: the
+     harness names the pair that is meant); the item's labels are renamed to 1000+2*idx, 1001+2*idx *)
+  let kaddrs = List.filter_map (fun w ->
+      match String.split_on_char ':' w with
+      | [i; a1; a2] when String.length i > 1 && i.[0] = 'K' ->
+        Some (int_of_string (String.sub i 1 (String.length i - 1)), (z_of_hex a1, z_of_hex a2))
+      | _ -> None) (words oracle) in
+  let items = List.mapi (fun i it -> match it with
+      | ILref (nm, _, l2, d) when List.mem_assoc i kaddrs ->
+        ILref (nm, nat_of_int (1000 + 2 * i), (match l2 with None -> None | Some _ -> Some (nat_of_int (1001 + 2 * i))), d)
+      | _ -> it) items in
   let base n = try List.assoc (int_of_nat n) addrs with Not_found -> Z0 in
-  let lab n = try List.assoc (int_of_nat n) labs with Not_found -> Z0 in
+  let lab n =
+    let n = int_of_nat n in
+    if n >= 1000 then (try let (a1, a2) = List.assoc ((n - 1000) / 2) kaddrs in if n land 1 = 0 then a1 else a2 with Not_found -> Z0)
+    else (try List.assoc n labs with Not_found -> Z0) in
   let lay = layout items in
   let b = Buffer.create 1024 in
   match load_check items with
